@@ -273,7 +273,8 @@ type c09Sess struct {
 	mu    *sync.Mutex
 	big   []byte
 	fatal bool
-	rx    int // bytes received from the current server
+	rx    int       // bytes received from the current server
+	kase  *lib.Case // hang account of the request being run (lib/budget.go)
 }
 
 func (s *c09Sess) fail(f lib.Failure) { s.out.fails = append(s.out.fails, f) }
@@ -286,7 +287,7 @@ func (s *c09Sess) start() bool {
 		return false
 	}
 	s.srv, s.rx = srv, 0
-	if _, err := srv.Handshake(); err != nil {
+	if _, err := hHandshake(srv, s.kase); err != nil {
 		s.fail(lib.Failure{Kind: "tie", Key: "handshake", What: err.Error(), Input: s.cfg})
 		s.fatal = true
 		return false
@@ -297,7 +298,7 @@ func (s *c09Sess) start() bool {
 func (s *c09Sess) stop() {
 	if s.srv != nil {
 		s.srv.CloseInput()
-		s.srv.Wait(5 * time.Second)
+		hCleanupSrv(s.srv, "c09/server-exit", 5*time.Second)
 	}
 }
 
@@ -316,7 +317,7 @@ func (s *c09Sess) restart() bool {
 }
 
 func (s *c09Sess) call(frame []byte) (wire.Pkt, error) {
-	p, err := s.srv.Call(frame)
+	p, err := hCall(s.srv, s.kase, frame)
 	s.rx += len(p.Body) + 5
 	return p, err
 }
@@ -739,14 +740,14 @@ func (s *c09Sess) runPipe(q c09Req) {
 			burst = append(burst, c09Frame(xs[xi], id, s.tree, hx[xi])...)
 		}
 	}
-	if err := s.srv.Send(burst); err != nil {
+	if err := hSend(s.srv, s.kase, burst); err != nil {
 		s.noReply(q, err)
 		opened = nil
 		return
 	}
 	replies := map[uint32]wire.Pkt{}
 	for range slots {
-		p, err := s.srv.Recv(20 * time.Second)
+		p, err := hRecv(s.srv, s.kase, 20*time.Second)
 		s.rx += len(p.Body) + 5
 		if err != nil {
 			s.fail(lib.Failure{Kind: "oracle", Key: "pipeline/no-reply/" + c09Key(q), What: fmt.Sprintf("only %d of %d pipelined requests were answered by the read-only server: %v", len(replies), len(slots), err), Input: q})
@@ -829,6 +830,16 @@ func (s *c09Sess) run(q c09Req) {
 	if s.fatal {
 		return
 	}
+	// hang class: the request type (and the extended request's name): a server that does not answer one kind of
+	// request stops that kind once the hang budget is used up, the others go on
+	class := fmt.Sprintf("c09/type-%d", q.Typ)
+	if q.Ext != "" {
+		class += "/" + q.Ext
+	}
+	if lib.Stop(class) {
+		return
+	}
+	s.kase = lib.NewCase(class)
 	if len(q.Reads) > 0 {
 		s.runPipe(q)
 	} else {
